@@ -107,10 +107,10 @@ Generic(z) == z[2] > 0
 (* Result as <<s, mm, e, j>>: tangent s * mm * P^j * 2^e (j may be negative: division by P^-j).                   *)
 Conv3(fi, a, b, z) ==
   IF ~Generic(z) THEN <<z[1], z[2], z[3], 0>>
-  ELSE <<z[1], z[2], z[3] - LatK[fi + 1] * (b - a), b - a>>
+  ELSE <<z[1], z[2], z[3] - LatK[fi + 1] * (b - a), IF LatP[fi + 1] = 1 THEN 0 ELSE b - a>>
 \* composition on the extended form
 Conv3x(fi, a, b, w) ==
-  IF w[2] <= 0 THEN w ELSE <<w[1], w[2], w[3] - LatK[fi + 1] * (b - a), w[4] + (b - a)>>
+  IF w[2] <= 0 THEN w ELSE <<w[1], w[2], w[3] - LatK[fi + 1] * (b - a), IF LatP[fi + 1] = 1 THEN 0 ELSE w[4] + (b - a)>>
 Neg4(w) == <<-w[1], w[2], w[3], w[4]>>
 \* w1 < w2 for results of the same conversion of positive generic inputs (same j): compare mm * 2^e
 LessPos(z1, z2) ==
@@ -138,7 +138,10 @@ ConvAccOK(r) ==
   ELSE IF r.m = 1 THEN Good(r.rt, TolTan(r.F)) /\ GoodOrSkipped(r.rq, TolTan(r.F))
   ELSE IF SeriesOK(r.F) THEN Good(r.ra, TolSer(r.a, r.b)) /\ GoodOrSkipped(r.rq, TolSer(r.a, r.b) + TolTan(r.F))
   ELSE TRUE                                   \* series outside its documented range: classes only
-CvRandomOK(r) == ClassOK(r.zc, r.zs, r.oc, r.os) /\ ConvAccOK(r)
+\* the series outside |f| <= 1/150 carries no promise at all (not even the sign); the equator and the poles are
+\* still fixed, because the correction is a sine series in 2 zeta
+Judged(r) == r.m = 1 \/ SeriesOK(r.F) \/ r.zc # 1
+CvRandomOK(r) == Judged(r) => ClassOK(r.zc, r.zs, r.oc, r.os) /\ ConvAccOK(r)
 
 \* lattice line: the model states the expected tangent exactly on the PHI/BETA/THETA charts and on the sphere
 CvLatticeOK(r) ==
@@ -150,8 +153,7 @@ CvLatticeOK(r) ==
       wx == IF fi = 0 \/ r.a > 2 \/ r.b > 2 THEN <<z[1], z[2], z[3], 0>> ELSE w
   IN /\ LatFOK(fi, r.F)
      /\ r.zc = (IF IsEq(z) THEN 0 ELSE IF IsPole(z) THEN 2 ELSE 1) /\ (r.zc # 0 => r.zs = z[1])
-     /\ ClassOK(r.zc, r.zs, r.oc, r.os)
-     /\ ConvAccOK(r)
+     /\ (Judged(r) => ClassOK(r.zc, r.zs, r.oc, r.os) /\ ConvAccOK(r))
      /\ (exact => DyNear(r.ot, wx[1], DyM(fi, wx), wx[3], TolTan(r.F)))
      \* the degree interface fixes 0 and +-90 exactly
      /\ (IsEq(z) => IsZero(r.zd) /\ IsZero(r.od))
@@ -161,7 +163,7 @@ CvOK(r) == IF r.fi >= 0 THEN CvLatticeOK(r) ELSE CvRandomOK(r)
 \* conditioning d log tan(to) / d log tan(from), in 1/1000; laws that propagate an error through a conversion are
 \* applicable where it is known and moderate
 CondOK(kap) == kap >= 0 /\ kap <= 4000
-Chain(F, kap) == (TolTan(F) * (2000 + kap)) \div 1000 + 2
+Chain(F, kap) == ((TolTan(F) \div 8 + 1) * (2000 + kap)) \div 125 + 2
 
 \* a conversion followed by its inverse
 RtpOK(r) ==
@@ -193,6 +195,7 @@ MonoOK(r) ==
 
 \* path independence: a -> b -> c against a -> c
 PathOK(r) ==
+  (r.m = 1 \/ SeriesOK(r.F) \/ r.zc # 1) =>
   /\ r.wc = r.dc /\ (r.zc = 0 => r.wc = 0) /\ (r.zc = 2 => r.wc = 2 /\ r.ws = r.zs) /\ (r.wc # 0 => r.ws = r.ds)
   /\ r.wc # 3
   /\ r.zc = 1 =>
